@@ -140,7 +140,7 @@ func (e *SEnv) expandPred(p *PredSpec, sx *SX, label string) []part {
 // is empty, stored integer values are well typed.
 func (e *SEnv) closedMapFacts(m Val) {
 	x := e.x
-	if strings.Contains(m.T, "q_") || m.T == "0" {
+	if strings.Contains(m.T, "q_") {
 		return
 	}
 	st := e.factSt
